@@ -76,6 +76,13 @@ fn day(off: u8) -> NaiveDate {
     NaiveDate::from_ymd_opt(2024, 3, 1 + off as u32).unwrap()
 }
 
+fn dec_small_signed() -> D {
+    let lo = vk::u8();
+    let neg = vk::bool();
+    vk::assume(lo < 64);
+    D::from_parts(lo as u32, 0, 0, neg, 0)
+}
+
 fn dec_small(scale: u32) -> D {
     let lo = vk::u8();
     vk::assume(lo > 0);
@@ -126,8 +133,135 @@ vk_proof_models! { unwind 4; fn c09_asof_direct() {
     core::mem::forget(repo);
 } }
 
+
+/// C09-H0 / C06-H4: insert_price is total for EVERY event (zero sides included: `0 X @@ 5 Y`), stores the
+/// price in both directions, never a non-positive rate for positive amounts, reciprocal when exact.
+vk_proof_models! { unwind 6; fn c09_insert_price() {
+    let vx = dec16(0);
+    let vy = dec16(0);
+    let from_db = vk::bool();
+    vk::assume(vx.is_sign_positive() && vy.is_sign_positive()); // book-keeping and the price DB hand over magnitudes
+    vk::note(&|| format!("price event {} X = {} Y (price db: {})", vx, vy, from_db));
+    let (x, y) = (commodity(0), commodity(1));
+    let mut b = PriceRepositoryBuilder::default();
+    let src = if from_db { PriceSource::PriceDB } else { PriceSource::Ledger };
+    b.insert_price(src, PriceEvent { date: day(0), price_x: SingleAmount::from_value(vx, x), price_y: SingleAmount::from_value(vy, y) });
+    let xy = b.records.get(&y).and_then(|m| m.get(&x));
+    let yx = b.records.get(&x).and_then(|m| m.get(&y));
+    if vx.is_zero() || vy.is_zero() {
+        // nothing usable can be derived; in particular no crash
+        let n = xy.map(|e| e.1.len()).unwrap_or(0) + yx.map(|e| e.1.len()).unwrap_or(0);
+        assert!(n == 0, "C09: a price was recorded from a zero amount");
+    } else {
+        let e1 = xy.expect("price of X in Y stored");
+        let e2 = yx.expect("price of Y in X stored (reciprocal direction)");
+        assert!(e1.1.len() == 1 && e2.1.len() == 1, "C09: one event must store exactly one rate per direction");
+        assert!(e1.0 == src && e2.0 == src, "C09: source of the stored price is not the event's source");
+        let (d1, r1) = e1.1[0];
+        let (d2, r2) = e2.1[0];
+        assert!(d1 == day(0) && d2 == day(0), "C09: stored price carries a different date");
+        assert!(!r1.is_zero() && r1.is_sign_positive() && !r2.is_zero() && r2.is_sign_positive(), "C09: non-positive rate stored");
+        // exact cases of the division model: vy multiple of vx => r1 == vy / vx exactly
+        let (ux, uy) = (vx.unpack().lo, vy.unpack().lo);
+        if uy % ux == 0 {
+            assert!(r1 == D::from_parts(uy / ux, 0, 0, false, 0), "C09: rate of X in Y is not y / x");
+        }
+        if ux % uy == 0 {
+            assert!(r2 == D::from_parts(ux / uy, 0, 0, false, 0), "C09: reciprocal rate of Y in X is not x / y");
+        }
+    }
+    vk_cover!(vx.is_zero() && !vy.is_zero(), "zero amount priced at a total");
+    vk_cover!(!vx.is_zero() && !vy.is_zero(), "usable price");
+    core::mem::forget(b);
+} }
+
+/// C09-H3: a price-database price replaces ledger-derived prices of the same pair (ledger events are
+/// inserted first, the price DB afterwards, as report::process does).
+vk_proof_models! { unwind 6; fn c09_source_precedence() {
+    let l1 = dec_small(0);
+    let l2 = dec_small(0);
+    let p = dec_small(0);
+    let n_ledger = vk::below(3);
+    vk::note(&|| format!("{} ledger prices then one price-db price", n_ledger));
+    let (x, y) = (commodity(0), commodity(1));
+    let one = SingleAmount::from_value(D::ONE, x);
+    let mut b = PriceRepositoryBuilder::default();
+    if n_ledger >= 1 {
+        b.insert_price(PriceSource::Ledger, PriceEvent { date: day(0), price_x: one, price_y: SingleAmount::from_value(l1, y) });
+    }
+    if n_ledger >= 2 {
+        b.insert_price(PriceSource::Ledger, PriceEvent { date: day(2), price_x: one, price_y: SingleAmount::from_value(l2, y) });
+    }
+    b.insert_price(PriceSource::PriceDB, PriceEvent { date: day(1), price_x: one, price_y: SingleAmount::from_value(p, y) });
+    let e = b.records.get(&y).and_then(|m| m.get(&x)).expect("pair stored");
+    assert!(e.0 == PriceSource::PriceDB, "C09: pair not marked as price-database sourced");
+    assert!(e.1.len() == 1, "C09: ledger-derived prices survive next to a price-database price for the same pair");
+    assert!(e.1[0].0 == day(1) && e.1[0].1 == p, "C09: the price-database price is not what is stored");
+    let r = b.records.get(&x).and_then(|m| m.get(&y)).expect("reverse pair stored");
+    assert!(r.0 == PriceSource::PriceDB && r.1.len() == 1, "C09: ledger-derived prices survive in the reciprocal direction");
+    vk_cover!(n_ledger == 2, "two ledger prices replaced");
+    core::mem::forget(b);
+} }
+
+
+/// C10-H1: convert_amount converts every commodity of the amount or fails; amounts already in the target
+/// are left untouched; the result is the sum of value x rate (linear). The price table for (target, date)
+/// is pre-computed in the repository cache (the search that fills it is C09's subject), with symbolic
+/// presence of a rate per commodity.
+vk_proof_models! { unwind 6; fn c10_convert_amount() {
+    let has_x = vk::bool();
+    let has_y = vk::bool();
+    let in_x = vk::bool();
+    let in_y = vk::bool();
+    let in_t = vk::bool();
+    let vx = dec_small_signed();
+    let vy = dec_small_signed();
+    let vt = dec_small_signed();
+    let rx = dec_small(0);
+    let ry = dec_small(0);
+    vk::note(&|| format!("amount: {}{}{} ; rates into T: X {:?} Y {:?}",
+        if in_x { format!("{} X ", vx) } else { String::new() }, if in_y { format!("{} Y ", vy) } else { String::new() }, if in_t { format!("{} T", vt) } else { String::new() },
+        if has_x { Some(rx) } else { None }, if has_y { Some(ry) } else { None }));
+    let (x, y, t) = (commodity(0), commodity(1), commodity(2));
+    let dist = Distance { num_ledger_conversions: 0, num_all_conversions: 1, staleness: TimeDelta::zero() };
+    let mut table: HashMap<Commodity<'static>, WithDistance<D>> = HashMap::new();
+    if has_x { table.insert(x, WithDistance(dist.clone(), rx)); }
+    if has_y { table.insert(y, WithDistance(dist.clone(), ry)); }
+    let mut cache = HashMap::new();
+    cache.insert((t, day(3)), table);
+    let mut repo = PriceRepository { inner: NaivePriceRepository { records: HashMap::new() }, cache };
+    let mut amount = Amount::zero();
+    if in_x { amount += SingleAmount::from_value(vx, x); }
+    if in_y { amount += SingleAmount::from_value(vy, y); }
+    if in_t { amount += SingleAmount::from_value(vt, t); }
+    let got = convert_amount(&mut repo, &amount, t, day(3));
+    let missing = (in_x && !has_x) || (in_y && !has_y);
+    match &got {
+        Err(ConversionError::RateNotFound(..)) => assert!(missing, "C10: conversion fails although every needed rate is available"),
+        Ok(r) => {
+            assert!(!missing, "C10: an amount whose rate is unavailable was dropped or left unconverted instead of failing");
+            let z = D::ZERO;
+            let want = (if in_x { vx * rx } else { z }) + (if in_y { vy * ry } else { z }) + (if in_t { vt } else { z });
+            let (gt, _) = crate::report::eval::verif_kani::amount_verif::part(r, t);
+            assert!(gt == want, "C10: converted total is not the sum of value x rate plus the untouched target amount");
+            let n = crate::report::eval::verif_kani::amount_verif::n_entries(r);
+            assert!(n <= 1, "C10: an unconverted commodity is left in the result");
+        }
+    }
+    vk_cover!(got.is_ok() && in_x && in_y && in_t, "three holdings converted");
+    vk_cover!(got.is_err(), "missing rate fails the conversion");
+    core::mem::forget(got);
+    core::mem::forget(repo);
+    core::mem::forget(amount);
+} }
+
 #[cfg(all(test, not(kani)))]
 #[test]
 fn verif_replay_entry() {
-    crate::vk::replay_dispatch(&[("c09_asof_direct", c09_asof_direct as fn())]);
+    crate::vk::replay_dispatch(&[
+        ("c09_asof_direct", c09_asof_direct as fn()),
+        ("c09_insert_price", c09_insert_price as fn()),
+        ("c09_source_precedence", c09_source_precedence as fn()),
+        ("c10_convert_amount", c10_convert_amount as fn()),
+    ]);
 }
